@@ -53,6 +53,7 @@ type PtrV struct {
 	Top     bool // unknown pointer
 	Opq     bool
 	MayNil  bool // free-nilable: may be nil or the cell below (attacker's choice)
+	Hostile bool // points into a structure filled from hostile input: what is loaded through it is attacker-chosen
 	Cell    int
 	Path    []int // field / element indices; -1 = unknown element
 }
@@ -67,6 +68,7 @@ type SliceV struct {
 	Lo, Hi  int
 	Cap     int // absolute end of capacity in the backing array
 	CapUnk  bool // capacity not known (make with an undetermined cap): at least Hi
+	Hostile bool // filled from hostile input: length and elements are attacker-chosen
 }
 
 type ArrV struct {
